@@ -46,6 +46,8 @@ ARITH = {
     "core::ops::arith::Add": "+", "core::ops::arith::Sub": "-",
     "core::ops::arith::Mul": "*", "core::ops::arith::Div": "/",
 }
+ITER = "core::iter::traits::iterator::Iterator::"
+ITER_NEXT = ITER + "next"
 BINOPS = {"Add": "+", "Sub": "-", "Mul": "*", "Div": "/", "Rem": "%"}
 AMOUNT = ("f64", "fpdec::Decimal")
 COMMUTATIVE = ("+", "*", "==", "and", "or")
@@ -67,6 +69,29 @@ def strip_ref(tk):
 
 
 # ---------------------------------------------------------------- canon
+class PName(str):
+    """Display name of a parameter term ("p", index, name).  Parameters are
+    identified by their index alone: renaming a parameter in the source must
+    not change any term, so the name compares equal to every other name and
+    is invisible to hashing and to the ordering used by `canon`."""
+
+    def __eq__(self, other):
+        return isinstance(other, str)
+
+    def __ne__(self, other):
+        return not isinstance(other, str)
+
+    def __hash__(self):
+        return 0x5eed
+
+    def __repr__(self):
+        return "'_'"
+
+
+def P(i, name):
+    return ("p", i, PName(name))
+
+
 def scalar_value(e):
     """Value of an exported scalar ({bits, size, ty}): signed integer types are
     decoded from two's complement."""
@@ -89,6 +114,8 @@ def canon(t):
         return ("app", t[1], t[2], tuple(canon(x) for x in t[3]))
     if h == "closure":
         return ("closure", t[1], tuple((i, canon(x)) for i, x in t[2]))
+    if h == "lam":
+        return ("lam", t[1], t[2], tuple((tuple((canon(a), p) for a, p in g), k, canon(x)) for g, k, x in t[3]))
     if h == "adt":
         return ("adt", t[1], t[2], tuple((n, canon(x)) for n, x in t[3]))
     if h in ("tuple", "array"):
@@ -114,6 +141,8 @@ def untag(t):
         return t
     if t[0] == "closure":
         return ("closure", t[1], tuple((i, untag(x)) for i, x in t[2]))
+    if t[0] == "lam":
+        return ("lam", t[1], t[2], tuple((tuple((untag(a), p) for a, p in g), k, untag(x)) for g, k, x in t[3]))
     if t[0] == "adt":
         return ("adt", t[1], t[2], tuple((n, untag(x)) for n, x in t[3]))
     if t[0] in ("tuple", "array"):
@@ -164,6 +193,8 @@ def show(t, depth=0):
         return ("(%s)" if h == "tuple" else "[%s]") % ", ".join(show(x) for x in t[1])
     if h == "closure":
         return "|..|{%s}" % t[1].split("::")[-1]
+    if h == "lam":
+        return "|item|{%s}" % "; ".join("[%s] %s" % (show_guard(g), show(x)) for g, k, x in t[3])
     if h == "const":
         return t[1].split("::")[-1] + (("[%s]" % t[2].split("::")[-1]) if t[2] else "")
     if h == "cast":
@@ -186,6 +217,46 @@ class State:
     def __init__(self, guard, env):
         self.guard = guard
         self.env = env
+
+
+def has_arith(t):
+    if not isinstance(t, tuple):
+        return False
+    if t[0] in ("+", "-", "*", "/", "%", "neg"):
+        return True
+    if t[0] in ("p", "num", "str", "bool", "unit", "variant", "none", "const", "panic", "bytes", "opaque_lit", "fnref", "cv"):
+        return False
+    if t[0] == "app":
+        return any(has_arith(x) for x in t[3])
+    if t[0] == "adt":
+        return any(has_arith(x) for _n, x in t[3])
+    if t[0] in ("tuple", "array"):
+        return any(has_arith(x) for x in t[1])
+    if t[0] in ("closure", "lam"):
+        return False
+    return any(has_arith(x) for x in t[1:] if isinstance(x, tuple))
+
+
+def subst(t, mapping):
+    """Replaces sub-terms (keys are canonical terms)."""
+    if not isinstance(t, tuple):
+        return t
+    if t in mapping:
+        return mapping[t]
+    h = t[0]
+    if h in ("p", "num", "str", "bool", "unit", "variant", "none", "const", "panic", "bytes", "opaque_lit", "fnref", "cv"):
+        return t
+    if h == "app":
+        return ("app", t[1], t[2], tuple(subst(x, mapping) for x in t[3]))
+    if h == "closure":
+        return ("closure", t[1], tuple((i, subst(x, mapping)) for i, x in t[2]))
+    if h == "lam":
+        return ("lam", t[1], t[2], tuple((tuple((subst(a, mapping), p) for a, p in g), k, subst(x, mapping)) for g, k, x in t[3]))
+    if h == "adt":
+        return ("adt", t[1], t[2], tuple((n, subst(x, mapping)) for n, x in t[3]))
+    if h in ("tuple", "array"):
+        return (h, tuple(subst(x, mapping) for x in t[1]))
+    return (h,) + tuple(subst(x, mapping) if isinstance(x, tuple) else x for x in t[1:])
 
 
 def gadd(guard, atom, pol):
@@ -218,7 +289,7 @@ class Evaluator:
             args = []
             for i, p in enumerate(params):
                 nm = p.get("pat", {}).get("name", "p%d" % i)
-                args.append(("p", i, nm))
+                args.append(P(i, nm))
         if len(args) != len(params):
             raise Unsupported("arity mismatch calling " + body["def"], body["span"])
         for p, a in zip(params, args):
@@ -234,6 +305,19 @@ class Evaluator:
 
     def summarize_closure(self, ct, args, depth=0, guard=()):
         """Applies a closure term to argument terms: [(guard, kind, term)]."""
+        if ct[0] == "lam":
+            # synthetic closure of a normalised `for` loop: ("lam", first parameter index, arity, outcomes)
+            if len(args) != ct[2]:
+                raise Unsupported("closure arity mismatch")
+            m = {P(ct[1] + i, "item"): a for i, a in enumerate(args)}
+            outs = []
+            for (g0, k0, t0) in ct[3]:
+                gg = guard
+                for a, pol in g0:
+                    gg = gadd(gg, subst(a, m), pol) if gg is not None else None
+                if gg is not None:
+                    outs.append((gg, k0, subst(t0, m)))
+            return outs
         if ct[0] != "closure":
             raise Unsupported("not a closure: " + show(ct))
         body = self.U.body.get(ct[1])
@@ -427,7 +511,100 @@ class Evaluator:
     def ev_let(self, e, st, depth, body):
         raise Unsupported("let expression outside a condition", e.get("sp"))
 
+    def for_parts(self, e):
+        """(iterable expr, resolved into_iter path, item pattern, loop body) if `e` is the desugaring of a `for` loop."""
+        sc = e["scrut"]
+        if not (sc["k"] == "call" and sc.get("fn") and sc["fn"]["path"] == "core::iter::traits::collect::IntoIterator::into_iter"
+                and len(e["arms"]) == 1 and e["arms"][0]["pat"]["k"] == "bind"):
+            return None
+        lp = e["arms"][0]["body"]
+        while lp["k"] == "block" and not lp["stmts"] and lp["expr"] is not None:
+            lp = lp["expr"]
+        if lp["k"] != "loop":
+            return None
+        lb = lp["body"]
+        inner = None
+        if lb["k"] == "block" and len(lb["stmts"]) == 1 and lb["expr"] is None and lb["stmts"][0]["k"] == "expr":
+            inner = lb["stmts"][0]["e"]
+        elif lb["k"] == "block" and not lb["stmts"] and lb["expr"] is not None:
+            inner = lb["expr"]
+        if inner is None or inner["k"] != "match" or len(inner["arms"]) != 2:
+            return None
+        nx = inner["scrut"]
+        if not (nx["k"] == "call" and nx.get("fn") and nx["fn"]["path"] == ITER_NEXT):
+            return None
+        some = [a for a in inner["arms"] if a["pat"]["k"] == "variant" and a["pat"].get("variant") == "Some"]
+        if len(some) != 1 or not some[0]["pat"]["subs"]:
+            return None
+        r = sc["fn"].get("resolved") or {}
+        return sc["args"][0], r.get("path", ""), some[0]["pat"]["subs"][0]["pat"], some[0]["body"]
+
+    def ev_for(self, parts, st, depth, body, sp):
+        """`for` loops of two idioms are rewritten into iterator terms (std contracts of
+        find_map / filter / last); every other loop is unsupported (fail closed).
+          search:     no outer variable is assigned, the body may `return v` under a condition
+                      ==  match it.find_map(|item| cond.then(|| v)) { Some(v) => return v, None => () }
+          keep-last:  one outer variable is assigned the same term f(item) under a condition, no return
+                      ==  if let Some(x) = it.filter(|item| cond).last() { var = f(x) }"""
+        it_e, into_path, pat, lbody = parts
+        sink = []
+        its = list(self.vals(it_e, st, depth, body, sink))
+        if sink or len(its) != 1:
+            raise Unsupported("control flow in the iterable of a for loop", sp)
+        (g0, X, env0) = its[0]
+        if into_path.startswith("core::array::<impl core::iter::traits::collect::IntoIterator for &") or \
+                into_path.startswith("core::slice::<impl core::iter::traits::collect::IntoIterator for &"):
+            I = ("app", "core::slice::<impl [T]>::iter", None, (X,))
+        elif into_path.startswith("<I as core::iter::traits::collect::IntoIterator>") or "for I>::into_iter" in into_path:
+            I = X
+        else:
+            raise Unsupported("for loop over %s" % (into_path or "an unresolved IntoIterator"), sp)
+        base = 200 + 10 * depth + 100 * len([k for k in env0 if isinstance(k, tuple)])
+        item = P(base, "item")
+        envb = dict(env0)
+        self.bind(pat, item, envb, body)
+        outs = list(self.ev(lbody, State((), envb), depth, body))
+        changed = set()
+        for (g, kind, t, env2) in outs:
+            if kind not in ("val", "ret"):
+                raise Unsupported("panic / break inside a for loop", sp)
+            for k, v in env0.items():
+                if env2.get(k) != v:
+                    changed.add(k)
+        rets = [o for o in outs if o[1] == "ret"]
+        if not changed:
+            lam = ("lam", base, 1, tuple((g, "val", ("some", t) if kind == "ret" else ("none",)) for (g, kind, t, _e) in outs))
+            fm = ("app", ITER + "find_map", None, (I, lam))
+            some = ("isvar", fm, "Some")
+            gs, gn = gadd(g0, some, True), gadd(g0, some, False)
+            if gs is not None and rets:
+                yield (gs, "ret", ("unwrap", fm), env0)
+            if gn is not None:
+                yield (gn, "val", ("unit",), env0)
+            return
+        if len(changed) == 1 and not rets:
+            var = next(iter(changed))
+            new_vals = {canon(env2[var]) for (g, kind, t, env2) in outs if env2.get(var) != env0[var]}
+            if len(new_vals) == 1:
+                f = next(iter(new_vals))
+                lam = ("lam", base, 1, tuple((g, "val", ("bool", env2.get(var) != env0[var])) for (g, kind, t, env2) in outs))
+                last = ("app", ITER + "last", None, (("app", ITER + "filter", None, (I, lam)),))
+                some = ("isvar", last, "Some")
+                gs, gn = gadd(g0, some, True), gadd(g0, some, False)
+                if gs is not None:
+                    env1 = dict(env0)
+                    env1[var] = subst(f, {item: ("unwrap", last)})
+                    yield (gs, "val", ("unit",), env1)
+                if gn is not None:
+                    yield (gn, "val", ("unit",), env0)
+                return
+        raise Unsupported("for loop outside the supported idioms (search with early return / keep the last match)", sp)
+
     def ev_match(self, e, st, depth, body):
+        parts = self.for_parts(e)
+        if parts is not None:
+            yield from self.ev_for(parts, st, depth, body, e.get("sp"))
+            return
         sink = []
         for (g, s, env) in self.vals(e["scrut"], st, depth, body, sink):
             prev = []  # tests of previous arms (all must be false)
@@ -745,7 +922,83 @@ class Evaluator:
             val = ("==", args[0], ("str", ""))
         if val is None and path == "core::str::<impl str>::is_empty":
             val = ("==", args[0], ("str", ""))
-        if val is None and path in ("core::hint::must_use",):
+        # --- Option / bool combinators with a case split (std contracts) ----------
+        OPT = "core::option::Option::<T>::"
+        if val is None and not mut_places and path.startswith(OPT) and name in (
+                "unwrap_or", "unwrap_or_else", "map", "and_then", "filter", "or", "or_else", "map_or", "is_some_and", "copied", "cloned", "unwrap_or_default_unsupported"):
+            o = args[0]
+            some = self.isvar(o, "core::option::Option", "Some")
+            inner = self.vfield(o, "core::option::Option", "Some", 0)
+
+            def clo(c, xs, gg):
+                if c[0] != "closure":
+                    raise Unsupported("non-closure argument to Option::" + name, sp)
+                for (g3, k3, t3) in self.summarize_closure(c, xs, depth + 1, gg):
+                    yield (g3, k3, t3)
+            if name in ("copied", "cloned"):
+                yield (g, "val", o, env)
+                return
+            gs, gn = gadd(g, some, True), gadd(g, some, False)
+            if gs is not None:
+                if name in ("unwrap_or", "unwrap_or_else"):
+                    yield (gs, "val", inner, env)
+                elif name == "map":
+                    for (g3, k3, t3) in clo(args[1], [inner], gs):
+                        yield (g3, k3, ("some", t3) if k3 == "val" else t3, env)
+                elif name == "map_or":
+                    for (g3, k3, t3) in clo(args[2], [inner], gs):
+                        yield (g3, k3, t3, env)
+                elif name in ("and_then", "is_some_and"):
+                    for (g3, k3, t3) in clo(args[1], [inner], gs):
+                        yield (g3, k3, t3, env)
+                elif name == "filter":
+                    for (g3, k3, t3) in clo(args[1], [inner], gs):
+                        if k3 != "val":
+                            yield (g3, k3, t3, env)
+                            continue
+                        g4 = gadd(g3, t3, True)
+                        if g4 is not None:
+                            yield (g4, "val", ("some", inner), env)
+                        g5 = gadd(g3, t3, False)
+                        if g5 is not None:
+                            yield (g5, "val", ("none",), env)
+                elif name in ("or", "or_else"):
+                    yield (gs, "val", ("some", inner), env)
+            if gn is not None:
+                if name == "unwrap_or":
+                    yield (gn, "val", args[1], env)
+                elif name in ("unwrap_or_else", "or_else"):
+                    for (g3, k3, t3) in clo(args[1], [], gn):
+                        yield (g3, k3, t3, env)
+                elif name in ("map", "and_then", "filter"):
+                    yield (gn, "val", ("none",), env)
+                elif name == "map_or":
+                    yield (gn, "val", args[1], env)
+                elif name == "is_some_and":
+                    yield (gn, "val", ("bool", False), env)
+                elif name == "or":
+                    yield (gn, "val", args[1], env)
+            return
+        if val is None and not mut_places and path in ("core::bool::<impl bool>::then_some", "core::bool::<impl bool>::then"):
+            gt, gf = gadd(g, args[0], True), gadd(g, args[0], False)
+            if gt is not None:
+                if name == "then_some":
+                    yield (gt, "val", ("some", args[1]), env)
+                else:
+                    if args[1][0] != "closure":
+                        raise Unsupported("non-closure argument to bool::then", sp)
+                    for (g3, k3, t3) in self.summarize_closure(args[1], [], depth + 1, gt):
+                        yield (g3, k3, ("some", t3) if k3 == "val" else t3, env)
+            if gf is not None:
+                # then_some evaluates its argument eagerly: arithmetic in it happens (and may panic in the
+                # decimal back-end) although the value is discarded
+                if name == "then_some" and has_arith(args[1]):
+                    yield (gf, "val", ("discard", args[1], ("none",)), env)
+                else:
+                    yield (gf, "val", ("none",), env)
+            return
+        if val is None and path in ("core::hint::must_use", "core::option::Option::<&T>::copied", "core::option::Option::<&T>::cloned",
+                                    "core::option::Option::<&mut T>::copied", "core::option::Option::<&mut T>::cloned"):
             val = args[0]
         if val is None and tr in ("core::clone::Clone",) and name == "clone":
             val = args[0]
